@@ -3,6 +3,7 @@ package main
 import (
 	"fmt"
 	"go/ast"
+	"go/constant"
 	"go/token"
 	"go/types"
 	"strings"
@@ -301,6 +302,7 @@ var acceptedUnbound = map[string]string{
 	"bytes.Buffer.WriteByte":                      "documented to always return a nil error",
 	"strings.Builder.WriteString":                 "documented to always return a nil error",
 	"strings.Builder.Write":                       "documented to always return a nil error",
+	"google.golang.org/grpc.Server.Serve":         "Serve returns when its listener is closed or the server is stopped, which is how it is meant to end; the error says no more than that (the run-group form discards it through Group.Run)",
 }
 
 // acceptedL1 lists bound error values that are deliberately not read on some
@@ -612,11 +614,46 @@ func (d *errL2) Transfer(n *Node, s Store) []Store {
 	for v, val := range newv {
 		s = s.With("V:"+varKey(v), val)
 	}
+	// boolean locals assigned a constant (the result variable of an inlined
+	// predicate helper): remembered so that the test of the flag separates the
+	// paths again
+	for v, rhs := range defs {
+		if v.IsField() || !types.Identical(v.Type().Underlying(), types.Typ[types.Bool]) {
+			continue
+		}
+		bv := ""
+		if rhs != nil {
+			if tv, ok := info.Types[rhs]; ok && tv.Value != nil && tv.Value.Kind() == constant.Bool {
+				if constant.BoolVal(tv.Value) {
+					bv = "T"
+				} else {
+					bv = "F"
+				}
+			}
+		} else if isVarDeclNode(n.Ast) {
+			bv = "F"
+		}
+		s = s.With("B:"+varKey(v), bv)
+	}
 	return []Store{s}
 }
 
 func (d *errL2) Refine(e *Edge, s Store) (Store, bool) {
 	info := d.f.Pkg.TypesInfo
+	if at, ok := edgeAtom(info, e); ok && at.Kind == "bool" {
+		if v, isV := identObj(info, at.X).(*types.Var); isV && !v.IsField() {
+			switch s.Get("B:" + varKey(v)) {
+			case "T":
+				if !at.True {
+					return s, false
+				}
+			case "F":
+				if at.True {
+					return s, false
+				}
+			}
+		}
+	}
 	// switch classify(err) { case K: ... }: on a matched non-default case the
 	// error was classified by value (status.Code(err) and the like), which is
 	// deliberate handling. The zero class (codes.OK) is the nil error.
